@@ -422,6 +422,10 @@ func execBz(o *Out, id, line string) {
 					o.Violate("C10", fmt.Sprintf("bzip2 through source %s: err=%v equal=%v", src, e, bytes.Equal(got, out)), "source-shape", line)
 					break
 				}
+				if zr.InputOffset != int64(len(in)) || zr.OutputOffset != int64(len(got)) {
+					o.Violate("C11", fmt.Sprintf("bzip2 through source %s: %d bytes in, %d out, but InputOffset=%d OutputOffset=%d", src, len(in), len(got), zr.InputOffset, zr.OutputOffset), "bz-counters-source", line)
+					break
+				}
 			}
 		}
 		if want, ok := kv["plain"]; ok {
